@@ -878,6 +878,9 @@ class ReadParquetPyarrowFS(ReadParquet):
             ]
         except (NotADirectoryError, FileNotFoundError):
             all_files = [self.fs.get_file_info(path_normalized)]
+        # The listing order of a filesystem is arbitrary: keep the files (and with
+        # them the partitions) in natural order like the fsspec reader does
+        all_files = sorted(all_files, key=lambda x: natural_sort_key(x.path))
         # TODO: At this point we could verify if we're dealing with a very
         # inhomogeneous datasets already without reading any further data
 
